@@ -282,18 +282,39 @@ fn check_names(t: &mut Tally, scratch: &Path, id: usize, names: &[String]) {
         t.outcome("names/not-creatable");
         return;
     }
+    let mut reread: Option<(String, String, String)> = None;
     let got = guard(|| {
         let db = PkgDB::open(&root).map_err(|e| e.to_string())?;
         let mut seen: Vec<(String, String, String, Result<String, String>)> = vec![];
+        let mut handles = vec![];
         for p in db {
             let p = p.map_err(|e| e.to_string())?;
             let desc = p.read_metadata(MetadataEntry::Desc).map_err(|e| e.kind().to_string());
             seen.push((p.pkgname().clone(), p.pkgbase().clone(), p.pkgversion().clone(), desc));
+            handles.push(p);
+        }
+        // the file is what it is *now*: rewrite +DESC in place (same length, modification time put
+        // back, as cp -p / rsync -t would) and read it again through the same package handle
+        for p in handles.iter().take(3) {
+            let path = root.join(p.pkgname()).join("+DESC");
+            let old = std::fs::read_to_string(&path).map_err(|e| e.to_string())?;
+            let mtime = std::fs::metadata(&path).and_then(|m| m.modified()).map_err(|e| e.to_string())?;
+            let new: String = old.chars().map(|c| if c.is_ascii_lowercase() { c.to_ascii_uppercase() } else { c }).collect();
+            std::fs::write(&path, &new).map_err(|e| e.to_string())?;
+            std::fs::File::options().write(true).open(&path).and_then(|f| f.set_modified(mtime)).map_err(|e| e.to_string())?;
+            let again = p.read_metadata(MetadataEntry::Desc).map_err(|e| e.kind().to_string());
+            if again.as_deref() != Ok(new.as_str()) && reread.is_none() {
+                reread = Some((p.pkgname().clone(), new.clone(), format!("{:?}", again)));
+            }
         }
         seen.sort();
         Ok::<_, String>(seen)
     });
     let _ = std::fs::remove_dir_all(&root);
+    if let Some((pkg, want, got)) = reread {
+        t.violation(Violation::new("names", case(), json!({"package": pkg, "+DESC now": want}), json!(got), "reading a metadata entry returns the file's content as it is now, also on a second read through the same handle after the file was rewritten in place"));
+        return;
+    }
     let mut want: Vec<(String, String, String, Result<String, String>)> = names
         .iter()
         .map(|n| {
